@@ -40,6 +40,7 @@ RunResult run(const std::string &name, uint64_t seed, int cases, int max_size, B
     auto res = checkTestable(
         [&]() {
             std::optional<Fail> f = body();
+            if (f && vc::g_only_crashes) f.reset(); // --mode c01
             if (f) {
                 shrinking() = true; // every later invocation is a shrink candidate
                 last = *f;
